@@ -448,7 +448,7 @@ func TestC12(t *testing.T) {
 		}
 		return f
 	})
-	rapidCases(h, "client", env.PerShard(env.Pick(2400, 40000)), genCverCase, func(c cverCase) *fail {
+	rapidCases(h, "client", env.PerShard(env.Pick(2400, 200000)), genCverCase, func(c cverCase) *fail {
 		f := runCverCase(c)
 		req := c.ClientMsize
 		if req == 0 {
